@@ -50,8 +50,9 @@ class Outcome(object):
         self.violations.append(Violation(kind, op, detail))
 
 
-class HangError(Exception):
-    pass
+class HangError(BaseException):
+    """Raised by the wall-clock watchdog.  BaseException: the `except Exception` clauses of the system under
+    test must not be able to swallow it and turn it into one of *its* outcomes."""
 
 
 class Check(object):
